@@ -345,6 +345,34 @@ def run_case(ctx, case):
                     j, R['ph'][j]['p_type'], machine, segseen[j]['p_type'], seg['p_type'], other), case)
                 break
         ctx.count('isolation.checked')
+    # --- a copy of the object (ELFStructs implements the pickle protocol; copy / pickle / multiprocessing rebuild it from its state)
+    #     decodes exactly like the original
+    if (seen or segseen) and valid:
+        import copy
+        import pickle
+        try:
+            st2 = pickle.loads(pickle.dumps(ef.structs))
+            for attr in ('little_endian', 'elfclass', 'e_type', 'e_machine', 'e_ident_osabi'):
+                if getattr(st2, attr, None) != getattr(ef.structs, attr, None):
+                    ctx.fail('copy|structs-state|%s' % attr, 'original %r, after a pickle round trip %r' % (getattr(ef.structs, attr, None), getattr(st2, attr, None)), case)
+            ef3 = copy.deepcopy(ef)
+            for i in list(seen)[:40]:
+                sec = ef3.get_section(i)
+                if dict(sec.header) != dict(seen[i].header) or sec.name != seen[i].name or type(sec) is not type(seen[i]):
+                    ctx.fail('copy|deepcopy|section', 'section[%d] (sh_type %#x, machine %#x): original reads %r/%s, its deep copy %r/%s' % (
+                        i, R['sh'][i]['sh_type'], machine, seen[i]['sh_type'], type(seen[i]).__name__, sec['sh_type'], type(sec).__name__), case)
+                    break
+            for j in list(segseen)[:40]:
+                seg = ef3.get_segment(j)
+                if dict(seg.header) != dict(segseen[j].header) or type(seg) is not type(segseen[j]):
+                    ctx.fail('copy|deepcopy|segment', 'segment[%d] (p_type %#x, machine %#x): original reads %r, its deep copy %r' % (
+                        j, R['ph'][j]['p_type'], machine, segseen[j]['p_type'], seg['p_type']), case)
+                    break
+            if dict(ef3.header) != dict(ef.header) and repr(ef3.header) != repr(ef.header):
+                ctx.fail('copy|deepcopy|header', 'file header of the deep copy differs', case)
+            ctx.count('copy.checked')
+        except Exception as e:  # noqa
+            ctx.fail_exc('copy', e, case)
     _register(ctx, m, R, data)
 
 
